@@ -280,6 +280,32 @@ func TestVerifC16(t *testing.T) {
 				}
 			}
 			fmt.Fprintf(w, "%s\n", c16Discover(limit, subnets))
+		case "disccancel":
+			// autoDiscover over large loopback subnets against a closed port, cancelled after <ms>:
+			// "true" iff the call returns within 5 s of the cancellation
+			limit, _ := strconv.Atoi(f[1])
+			ms, _ := strconv.Atoi(f[2])
+			ctx, cancel := context.WithCancel(context.Background())
+			var lmu sync.Mutex
+			var dbg []string
+			old := driver.lc
+			driver.lc = c16Logger{mu: &lmu, debug: &dbg}
+			ret := make(chan struct{})
+			go func() {
+				autoDiscover(ctx, discoverParams{subnets: strings.Split(f[3], ","), asyncLimit: limit,
+					timeout: 300 * time.Millisecond, scanPort: "1"})
+				close(ret)
+			}()
+			time.Sleep(time.Duration(ms) * time.Millisecond)
+			cancel()
+			ok := false
+			select {
+			case <-ret:
+				ok = true
+			case <-time.After(5 * time.Second):
+			}
+			driver.lc = old
+			fmt.Fprintf(w, "%v\n", ok)
 		case "sz":
 			p, _ := strconv.Atoi(f[1])
 			fmt.Fprintf(w, "%d\n", computeNetSz(p))
